@@ -108,7 +108,18 @@ def variable_domain_signature(spec: Any) -> Dict[str, Any]:
         }
     if name == "SequenceSpec":
         values = list(spec.values)
-        head, tail = values[:3], values[-3:]
+
+        def _json_safe(v: Any) -> Any:
+            # The sample ends up in trace records and in the canonical spec: keep it
+            # JSON-serialisable (YAML dates, numpy scalars, ... are rendered with repr).
+            try:
+                json.dumps(v)
+                return v
+            except (TypeError, ValueError):
+                return repr(v)
+
+        head = [_json_safe(v) for v in values[:3]]
+        tail = [_json_safe(v) for v in values[-3:]]
         try:
             digest = _sha256_json(values)
         except TypeError:
